@@ -20,6 +20,7 @@ import (
 	"encoding/json"
 	"errors"
 	"fmt"
+	"github.com/mimiro-io/datahub/internal/verifhook"
 	"io"
 	"net/http"
 	"net/url"
@@ -851,6 +852,7 @@ func (handler *datasetHandler) processEntities(
 	}
 
 	if fullSyncEnd {
+		verifhook.Point("web.fullsync.beforeRelease")
 		if err := dataset.ReleaseFullSyncLease(fullSyncID); err != nil {
 			return echo.NewHTTPError(http.StatusGone, server.HTTPGenericErr(err).Error())
 		}
